@@ -491,5 +491,5 @@ def replay(wit):
 LEVEL = 'exploration'
 TECHNIQUE = 'runtime differential oracle across entry points against a configuration model, histories of set_default_config in forked children, sensitivity anchors'
 LEVEL_TEXT = ('After each generated history of set_default_config calls (fresh forked interpreter state per history), a sample (thorough: all 729) of explicit/unset combinations of the six settings is run through '
-              'nine entry-point variants on values sensitive to every setting; all must equal pformat with every effective setting explicit, and get_default_config must equal the model after every step.')
+              'nine entry-point variants (streams: StringIO, a list-backed sink that is falsy while empty, a write-only falsy object) on values sensitive to every setting, incl. comments with whitespace-only lines; pretty_repr also as first entry point of by-name types and for virtual subclasses of a registered ABC; all must equal pformat with every effective setting explicit, and get_default_config must equal the model after every step.')
 LEVEL_NOTE = 'The reference is the same pformat with all arguments explicit, anchored by sensitivity checks (each explicit setting must change the output of a designated value).'
